@@ -30,7 +30,8 @@
 (* SECOND USE (cfg MIndexTrace): trace validation.                         *)
 (*   ndjson, many traces per file (field tid), lines                       *)
 (*   {tid, ev:"base", system, texture, n, exc, finite,                     *)
-(*        m_e6, below0_e6, above1_e6 [, texc, tsum_e6, tlast_e6]}          *)
+(*        m_e6, below0_e6, above1_e6                                       *)
+(*        [, mult, texc, tsum_e6, tfirst_e6, tlast_e6]}   (halfturn only)  *)
 (*        exc "None" | exception class of misorientation_index(o, system)  *)
 (*        m_e6 = M clipped to [0, 2] in 1e-6; below0/above1 = max(0, -M),  *)
 (*        max(0, M - 1) in 1e-6                                            *)
@@ -66,26 +67,37 @@
 (*   the pair sits exactly at theta_max = 180 and belongs to the LAST bin. *)
 (*   EdgeSystems are the systems for which the specification can name such *)
 (*   orientations (triclinic).  Two texture classes exercise that edge:    *)
-(*    "halfturn"  n of the four orientations {identity, two-folds about    *)
-(*       x, y, z}, n in 2..4: EVERY pair is at theta_max, the histogram is *)
-(*       the unit mass on the last bin, and the definition                 *)
-(*       M = 1/2 sum_i |theory_i - observed_i| (1-degree bins) gives the   *)
-(*       closed form  M = (T - t_L + |t_L - 1|) / 2,  T = sum_i theory_i,  *)
-(*       t_L = theory mass of the last bin.  T and t_L are LEAVES: the     *)
-(*       harness evaluates the real misorientations_random on the bins     *)
-(*       and logs tsum_e6, tlast_e6 (texc = exception class) on the base   *)
-(*       line; the law |2 m - (T - t_L + |t_L - 1|)| <= 2e-5 is evaluated  *)
-(*       here (clause halfturn-closed-form).  No pair is near an interior  *)
-(*       bin edge (after any rigid rotation all angles stay within         *)
-(*       rounding of 180, and an angle cannot exceed 180), so relations on *)
-(*       this class get NO flip allowance and are decidable for every n:   *)
-(*       RelTol = 1e-6.                                                    *)
+(*    "halfturn"  a multiset over the four orientations {identity,         *)
+(*       two-folds about x, y, z} with multiplicities mult (HalfturnMults, *)
+(*       at least two of them non-zero; <<1,1,0,0>>, <<1,1,1,0>>,          *)
+(*       <<1,1,1,1>> are the pure mutually half-turned sets, <<k,k,0,0>>   *)
+(*       k twin pairs).  Two grains are either equal (angle 0, FIRST bin)  *)
+(*       or a half-turn apart (angle theta_max, LAST bin), so with         *)
+(*         Z = sum_i C(mult_i, 2),  H = sum_{i<j} mult_i mult_j,  P = Z+H  *)
+(*       the observed histogram is (Z/P) on the first and (H/P) on the     *)
+(*       last bin - exact integers owned by this module - and the          *)
+(*       definition M = 1/2 sum_i |theory_i - observed_i| (1-degree bins)  *)
+(*       gives the closed form                                             *)
+(*         M = (T - t_1 - t_L + |t_1 - Z/P| + |t_L - H/P|) / 2,            *)
+(*       T = sum_i theory_i, t_1 / t_L = theory mass of the first / last   *)
+(*       bin.  T, t_1, t_L are LEAVES: the harness evaluates the real      *)
+(*       misorientations_random on the bins and logs tsum_e6, tfirst_e6,   *)
+(*       tlast_e6 (texc = exception class) on the base line; the law       *)
+(*       |2 m - (...)| <= 2e-5 is evaluated here (halfturn-closed-form).   *)
+(*       A histogram that loses the pairs at theta_max gives NaN for the   *)
+(*       pure sets and a silently shifted M otherwise - both rejected.     *)
+(*       No pair is near an interior bin edge (angles stay within rounding *)
+(*       of 0 or 180 after any rigid rotation, and cannot exceed 180), so  *)
+(*       relations on this class get NO flip allowance and are decidable   *)
+(*       for every n: RelTol = 1e-6.                                       *)
 (*    "twinned"  n/2 random grains plus their exact half-turn partners     *)
-(*       (built so that the inner product is 0 in the float32 arithmetic   *)
-(*       of the histogram): n/2 of the P pairs sit exactly at theta_max in *)
-(*       the base run and just below it after a generic frame rotation -   *)
-(*       the ordinary relation clauses must hold (a histogram that loses   *)
-(*       the pairs at theta_max shifts M between the two runs).            *)
+(*       (inner product 0 in the float32 arithmetic of the histogram):     *)
+(*       n/2 of the P pairs sit exactly at theta_max.  Only the ordinary   *)
+(*       clauses (finite, range, relations) are demanded.  Note: relations *)
+(*       cannot expose lost theta_max pairs here - in float32 an angle     *)
+(*       within 1e-5 degree of 180 rounds to exactly 180, so the partners  *)
+(*       stay AT theta_max after a rigid rotation and both runs lose the   *)
+(*       same pairs (measured); the halfturn closed form is the oracle.    *)
 (*                                                                         *)
 (*   RelTol(P) = 1e-6 + Flips(P)/P,  P = n(n-1)/2 pairs,                   *)
 (*   Flips(P) = 2 + P div 5000: a pair whose angle sits on a bin edge may  *)
@@ -131,6 +143,9 @@ CONSTANTS Sizes,        \* grain counts of the scenario table
           ReducedUpTo   \* FullUpTo < n <= ReducedUpTo: thinned; above: minimal
 
 \* ================================================================== tables (Grimmer 1979, Table 1)
+Pairs(n) == (n * (n - 1)) \div 2
+Abs(x) == IF x < 0 THEN -x ELSE x
+
 Systems == <<"triclinic", "monoclinic", "orthorhombic", "rhombohedral", "tetragonal", "hexagonal">>
 SystemSet == {Systems[k] : k \in 1..Len(Systems)}
 ThetaMax(s) == CASE s = "triclinic" -> 180 [] s = "monoclinic" -> 180
@@ -154,7 +169,15 @@ GenericTextures == {"uniform", "single", "clustered", "girdle"}
 EdgeTextures == {"halfturn", "twinned"}        \* pairs exactly at theta_max (closed upper end of the range)
 Textures == GenericTextures \cup EdgeTextures
 EdgeSystems == {"triclinic"}                   \* systems where an exact half-turn is exactly theta_max apart
-HalfturnSizes == {2, 3, 4}                     \* subsets of {identity, two-folds about x, y, z}
+\* multiplicities of {identity, two-folds about x, y, z} (which orientation gets which count is the harness's draw)
+HalfturnMults == {<<1, 1, 0, 0>>, <<1, 1, 1, 0>>, <<1, 1, 1, 1>>, <<2, 1, 0, 0>>, <<2, 2, 0, 0>>, <<3, 2, 1, 0>>,
+                  <<5, 5, 5, 5>>, <<10, 10, 0, 0>>, <<20, 15, 10, 5>>, <<30, 30, 0, 0>>}
+MultN(m) == m[1] + m[2] + m[3] + m[4]
+MultZ(m) == Pairs(m[1]) + Pairs(m[2]) + Pairs(m[3]) + Pairs(m[4])                       \* pairs of equal orientations
+MultH(m) == m[1]*m[2] + m[1]*m[3] + m[1]*m[4] + m[2]*m[3] + m[2]*m[4] + m[3]*m[4]       \* pairs a half-turn apart
+MultOK(m) == /\ \A k \in 1..4 : m[k] \in 0..60
+             /\ Cardinality({k \in 1..4 : m[k] > 0}) >= 2
+             /\ Pairs(MultN(m)) <= 2000                                                 \* Z * 1e6 stays below 2^31
 Relations == {"permutation", "frame-generic", "frame-quarter", "twofold-one", "twofold-half"}
 IsTwoFold(t) == t \in {"twofold-one", "twofold-half"}
 ClauseOf(t) == CASE t = "permutation" -> "permutation"
@@ -162,8 +185,6 @@ ClauseOf(t) == CASE t = "permutation" -> "permutation"
                  [] IsTwoFold(t) -> "twofold-relabelling"
 
 \* ================================================================== thresholds (integer arithmetic, 32-bit safe)
-Pairs(n) == (n * (n - 1)) \div 2
-Abs(x) == IF x < 0 THEN -x ELSE x
 
 RECURSIVE ISqrtIter(_, _, _)
 ISqrtIter(x, lo, hi) == IF lo >= hi THEN lo
@@ -209,20 +230,21 @@ IndexScenarios ==
       relations |-> SetToSeq(RelationsFor(Systems[k], n)),
       axes |-> TwoFoldAxes(Systems[k]), mode |-> TwoFoldMode(Systems[k])] :
         k \in 1..Len(Systems), tx \in GenericTextures, n \in Sizes, r \in 1..Reps}
-EdgeSizes(tx) == IF tx = "halfturn" THEN HalfturnSizes
-                 ELSE {n \in Sizes : n % 2 = 0 /\ n >= 20 /\ Level(n) = "full"}
+EdgeRecord(k, tx, n, r, m) ==
+    [kind |-> "index", system |-> Systems[k], sysno |-> k, texture |-> tx, n |-> n, rep |-> r, mult |-> m,
+     level |-> "full", theta_max |-> ThetaMax(Systems[k]), group_order |-> GroupOrder(Systems[k]),
+     relations |-> SetToSeq({t \in Relations : ~IsTwoFold(t) \/ TwoFoldMode(Systems[k]) # "none"}),
+     axes |-> TwoFoldAxes(Systems[k]), mode |-> TwoFoldMode(Systems[k])]
+EdgeSystemNos == {j \in 1..Len(Systems) : Systems[j] \in EdgeSystems}
 EdgeScenarios ==
-    {[kind |-> "index", system |-> Systems[k], sysno |-> k, texture |-> tx, n |-> n, rep |-> r,
-      level |-> "full", theta_max |-> ThetaMax(Systems[k]), group_order |-> GroupOrder(Systems[k]),
-      relations |-> SetToSeq({t \in Relations : ~IsTwoFold(t) \/ TwoFoldMode(Systems[k]) # "none"}),
-      axes |-> TwoFoldAxes(Systems[k]), mode |-> TwoFoldMode(Systems[k])] :
-        k \in {j \in 1..Len(Systems) : Systems[j] \in EdgeSystems}, tx \in EdgeTextures,
-        n \in Sizes \cup HalfturnSizes, r \in 1..Reps}
+    {EdgeRecord(k, "halfturn", MultN(m), r, m) : k \in EdgeSystemNos, m \in HalfturnMults, r \in 1..Reps}
+    \cup {EdgeRecord(k, "twinned", n, r, <<>>) : k \in EdgeSystemNos, r \in 1..Reps,
+                                                n \in {x \in Sizes : x % 2 = 0 /\ x >= 20 /\ Level(x) = "full"}}
 TheoryScenarios ==
     {[kind |-> "theory", system |-> Systems[k], sysno |-> k, theta_max |-> ThetaMax(Systems[k]),
       group_order |-> GroupOrder(Systems[k])] : k \in 1..Len(Systems)}
 Scenarios == {sc \in IndexScenarios : sc.texture \in TexturesFor(sc.n) /\ sc.rep <= RepsFor(sc.n)}
-             \cup {sc \in EdgeScenarios : sc.n \in EdgeSizes(sc.texture)}
+             \cup EdgeScenarios
              \cup TheoryScenarios
 
 \* design-level lemmas about the law itself (TLC evaluates them once, whatever the cfg)
@@ -239,7 +261,9 @@ ASSUME \A n \in Sizes : ~RelVacuous(Pairs(n)) =>
 ASSUME RelVacuous(Pairs(9)) /\ ~RelVacuous(Pairs(10))
 \* the edge classes exist only where an exact half-turn is theta_max apart: no symmetry operator, theta_max = 180
 ASSUME \A s \in EdgeSystems : GroupOrder(s) = 1 /\ ThetaMax(s) = 180
-ASSUME \A n \in HalfturnSizes : ~RelVacuousFor("halfturn", Pairs(n)) /\ RelVacuous(Pairs(n))
+ASSUME \A m \in HalfturnMults : MultOK(m) /\ MultZ(m) + MultH(m) = Pairs(MultN(m)) /\ MultH(m) > 0
+\* three mutually half-turned grains: all 3 pairs at theta_max; 30 twin pairs twice over: 870 equal, 900 half-turned
+ASSUME MultZ(<<1, 1, 1, 0>>) = 0 /\ MultH(<<1, 1, 1, 0>>) = 3 /\ MultZ(<<30, 30, 0, 0>>) = 870 /\ MultH(<<30, 30, 0, 0>>) = 900
 ASSUME \A s \in SystemSet : /\ Len(TwoFoldAxes(s)) = 0 <=> TwoFoldMode(s) = "none"
                             /\ ThetaMax(s) \in {90, 120, 180}
 \* e.g. 200 grains, 180 bins: (6.708 + 1.809)/141.07 + 0.001 = 0.0614
@@ -269,7 +293,6 @@ None == <<>>
 BaseVerdicts ==
     IF Ev.system \notin SystemSet \/ Ev.texture \notin Textures \/ Ev.n < 2 THEN Rej("trace-unknown-scenario-class")
     ELSE IF Ev.texture \in EdgeTextures /\ Ev.system \notin EdgeSystems THEN Rej("trace-unknown-scenario-class")
-    ELSE IF Ev.texture = "halfturn" /\ Ev.n \notin HalfturnSizes THEN Rej("trace-unknown-scenario-class")
     ELSE IF Ev.exc # "None" THEN Rej("raises")
     ELSE IF ~Ev.finite THEN Rej("finite")
     ELSE LET B == ThetaMax(Ev.system) IN
@@ -279,11 +302,18 @@ BaseVerdicts ==
           ELSE IF Ev.m_e6 > UniformBoundE6(Ev.n, B) THEN Rej("uniform-near-0") ELSE None)
       \o (IF Ev.texture = "single" /\ Ev.m_e6 < SingleMinE6 THEN Rej("single-near-1") ELSE None)
       \o (IF Ev.texture # "halfturn" THEN None
-          ELSE IF "tsum_e6" \notin DOMAIN Ev \/ "tlast_e6" \notin DOMAIN Ev \/ "texc" \notin DOMAIN Ev
+          ELSE IF {"mult", "texc", "tsum_e6", "tfirst_e6", "tlast_e6"} \ DOMAIN Ev # {}
                THEN Rej("trace-halfturn-without-leaves")
-          ELSE IF Ev.texc # "None" THEN Skp("closed-form-leaves-unavailable")
-          ELSE IF Abs(2 * Ev.m_e6 - (Ev.tsum_e6 - Ev.tlast_e6 + Abs(Ev.tlast_e6 - 1000000))) > 2 * ClosedTolE6
-               THEN Rej("halfturn-closed-form") ELSE None)
+          ELSE IF Len(Ev.mult) # 4 THEN Rej("trace-halfturn-bad-multiplicities")
+          ELSE LET m == <<Ev.mult[1], Ev.mult[2], Ev.mult[3], Ev.mult[4]>> IN
+               IF ~MultOK(m) \/ MultN(m) # Ev.n THEN Rej("trace-halfturn-bad-multiplicities")
+               ELSE IF Ev.texc # "None" THEN Skp("closed-form-leaves-unavailable")
+               ELSE LET P == Pairs(Ev.n)
+                        zf == (MultZ(m) * 1000000 + P \div 2) \div P        \* observed mass of the first bin, 1e-6
+                        hf == 1000000 - zf                                   \* observed mass of the last bin
+                        expect2 == Ev.tsum_e6 - Ev.tfirst_e6 - Ev.tlast_e6
+                                   + Abs(Ev.tfirst_e6 - zf) + Abs(Ev.tlast_e6 - hf) IN
+                    IF Abs(2 * Ev.m_e6 - expect2) > 2 * ClosedTolE6 THEN Rej("halfturn-closed-form") ELSE None)
 
 BaseNext == IF Ev.system \in SystemSet /\ Ev.n >= 2
             THEN [tid |-> Ev.tid, system |-> Ev.system, texture |-> Ev.texture, n |-> Ev.n,
